@@ -374,7 +374,32 @@ func (m *Monitor) after(o Op, p *preState, res perfResult) {
 			}
 		}
 	}
+	m.liveBatches(o)
 	m.books(o)
+}
+
+// batchRefused: the external chain executed a batch the protocol still considers live, fxcore cannot take the claim
+func (m *Monitor) batchRefused(o Op) {
+	for _, b := range m.w.liveBatch {
+		if b.C == o.C && b.T == o.T && b.Nonce == uint64(o.ID) {
+			m.fail("C04:batch-executed-refused", fmt.Sprintf("%s: the external chain executed a batch that was requested, not timed out and not superseded by a later batch of its token, but fxcore cannot process the claim (the claim transaction aborts): its transfers were paid out externally and are not accounted as executed", o.Coq()))
+		}
+	}
+}
+
+// liveBatches: every batch the external chain may still execute must still exist on fxcore with its transfers
+func (m *Monitor) liveBatches(o Op) {
+	w := m.w
+	for _, b := range w.liveBatch {
+		a := w.Toks[b.T].Alias(chainName(b.C))
+		if a == nil {
+			continue
+		}
+		if w.xs(b.C).Keeper.GetOutgoingTxBatch(w.C.Ctx, a.Contract, b.Nonce) == nil {
+			m.fail("C04:batch-dissolved:"+o.K, fmt.Sprintf("after %s the batch (%s, %s, nonce %d) no longer exists on fxcore although the external chain can still execute it (not executed, not timed out at the observed height, no later batch of the same token executed): its transfers are cancellable and refundable while they can still be paid out externally",
+				o.Coq(), chainName(b.C), w.Toks[b.T].Symbol, b.Nonce))
+		}
+	}
 }
 
 // refundRefused: a refund (failed result / timed-out call) could not be executed
@@ -424,6 +449,20 @@ func (m *Monitor) books(o Op) {
 		case lib.TokModuleOwned:
 			if esc := w.C.Bal(ctx, w.Addr(aERC20), tk.Base); esc.Cmp(total) != 0 {
 				m.fail("C08:backing:module-owned", fmt.Sprintf("after %s: %s escrowed by the erc20 module %s != ERC-20 totalSupply %s", o.Coq(), tk.Base, esc, total))
+			}
+			// pool equation: every base coin in existence is backed by an alias coin (bridge denom / IBC voucher) locked in a
+			// module account: supply(base) == sum over aliases of (supply(alias) - alias held by non-module accounts)
+			locked := new(big.Int)
+			for _, d := range w.allDenoms() {
+				if d.T == t && d.Which != 0 {
+					locked.Add(locked, w.C.Supply(ctx, d.Name))
+					for _, a := range m.users() {
+						locked.Sub(locked, w.C.Bal(ctx, w.Addr(a), d.Name))
+					}
+				}
+			}
+			if bs := w.C.Supply(ctx, tk.Base); bs.Cmp(locked) != 0 {
+				m.fail("C08:pool:module-owned", fmt.Sprintf("after %s: supply of %s = %s but the alias coins locked in module accounts add up to %s", o.Coq(), tk.Base, bs, locked))
 			}
 		case lib.TokExternal:
 			sup := new(big.Int)
